@@ -1,0 +1,31 @@
+//! Verification hooks. Compiled only under `--cfg typstyle_verif`.
+//!
+//! Exposes a few crate-private pure helpers and a per-thread counter of calls to the
+//! expression/pattern/markup/math conversion entry points.
+
+use std::cell::Cell;
+
+pub use crate::{
+    pretty::verif_comment_doc,
+    utils::{count_spaces_after_last_newline, strip_trailing_whitespace, trim_range},
+};
+
+thread_local! {
+    static CONVERSIONS: Cell<u64> = const { Cell::new(0) };
+}
+
+/// Count one call to a conversion entry point.
+#[inline]
+pub fn bump() {
+    CONVERSIONS.with(|c| c.set(c.get() + 1));
+}
+
+/// Reset the per-thread counter.
+pub fn reset() {
+    CONVERSIONS.with(|c| c.set(0));
+}
+
+/// Read the per-thread counter.
+pub fn get() -> u64 {
+    CONVERSIONS.with(|c| c.get())
+}
